@@ -370,9 +370,29 @@ def main():
         raise common.MachineryError('Trace_C14 accepted a set_tagged that changed nothing')
     accepted = validate_random(v, recs, os.path.join(wd, 'c2s'))
     sc, nsc = scenarios()
+    # tags on every kind of argument (positional cells, **kwargs names, with and without a value) survive
+    # every copying / serializing transformation: all FdlStore states through all codecs
+    from harness import storecodec  # pylint: disable=g-import-not-at-top
+    store_stats = storecodec.run(v, wd, quick, dict(storecodec.COPY_CODECS, **storecodec.JSON_CODECS))
+    # ... and diff application: hand-made pairs with callable changes, moved subtrees and tag edits
+    from harness import c10  # pylint: disable=g-import-not-at-top
+    import random as _random  # pylint: disable=g-import-not-at-top
+    ndiff = 0
+    for old, new, label in c10.handmade_pairs(_random.Random(common.seed() * 2246822519 + 5), 40 if quick else 400):
+      ndiff += 1
+      try:
+        d = diffing.build_diff(old, new)
+        tgt = copy.deepcopy(old)
+        diffing.apply_diff(d, tgt)
+      except Exception:  # judged by C10  # pylint: disable=broad-except
+        continue
+      if H.project_sorted(tgt)[0] != H.project_sorted(new)[0]:
+        v.mismatch({'clause': 'tags-after-diff-application', 'pair': label},
+                   {'message': f'{H.project_sorted(tgt)[0]} expected {H.project_sorted(new)[0]}'})
     for f, msg in sc:
       v.mismatch(f, {'message': msg})
   v.coverage.update({
+      'store_states_round_tripped': store_stats, 'handmade_diff_pairs': ndiff,
       'states': res.distinct, 'transitions': res.generated,
       'traces_validated_against_impl': totals['lines'] + len(recs),
       'evaluations': totals['lines'] + len(recs) + nsc, 'distinct_nontrivial': totals['nontrivial'],
